@@ -366,7 +366,7 @@ func spec_isBoolean(a Amf0, b bool) bool {
 
 // object {k0: Number, k1: Boolean}: exact layout, size, round trip with keys in order, re-marshal
 //@ bounded lemma_C05_objectRoundtrip_2 4
-//@ lemma C05.object.roundtrip.bounded C06.object.layout.bounded
+//@ lemma C05.object.roundtrip.bounded C06.object.layout.bounded C03.amf0.object.roundtrip.bounded
 func lemma_C05_objectRoundtrip_2(bits uint64, flag bool) bool {
 	k0, k1 := spec_anyKey(1), spec_anyKey(3)
 	o := NewObject()
@@ -402,7 +402,7 @@ func lemma_C05_objectRoundtrip_2(bits uint64, flag bool) bool {
 
 // a repeated name in a decodable byte string: Size() afterwards is what was consumed, and re-marshalling reproduces it
 //@ bounded lemma_C05_objectRepeatedKey 4
-//@ lemma C05.object.size-consumed.repeated-key C06.object.repeated-key.bounded
+//@ lemma C05.object.size-consumed.repeated-key C06.object.repeated-key.bounded C03.amf0.repeated-key.bounded
 func lemma_C05_objectRepeatedKey(k byte) bool {
 	b := []byte{3, 0, 1, k, 5, 0, 1, k, 6, 0, 0, 9}
 	q := NewObject()
@@ -546,7 +546,7 @@ func lemma_C05_objectTruncated(k, x byte) bool {
 
 // AMF0 2.5: a property name may be the empty string; only an empty name FOLLOWED BY the end marker 09 ends the object
 //@ bounded lemma_C06_emptyName 4
-//@ lemma C06.object.empty-name.bounded C05.object.empty-name.bounded
+//@ lemma C06.object.empty-name.bounded C05.object.empty-name.bounded C03.amf0.empty-name.bounded
 func lemma_C06_emptyName(flag byte) bool {
 	b := []byte{3, 0, 0, 1, flag, 0, 1, 'a', 5, 0, 0, 9}
 	q := NewObject()
